@@ -230,7 +230,7 @@ def work(chunk_id, payload):
 def main():
     chk = R.Check(PROP)
     binary = chk.build("asan")
-    total = 480 if chk.tier == "quick" else 8000
+    total = 1600 if chk.tier == "quick" else 8000
     total = max(16, int(total * chk.args.scale))
     nchunks = 16 if chk.tier == "quick" else 64
     per = max(1, total // nchunks)
